@@ -169,6 +169,10 @@ def generate_for_map(
     key_values = list(generate_for_type(key_def, spec, visited))
     value_values = list(generate_for_type(value_def, spec, visited))
 
+    # The empty map is always a valid instance. It is also the only variant left when
+    # the value type is cut off by the recursion limit (a map of a recursive structure).
+    yield (True, {})
+
     for key_valid, key_value in key_values:
         for value_valid, value_value in value_values:
             if not (isinstance(key_value, Ignore) or isinstance(value_value, Ignore)):
